@@ -312,6 +312,9 @@ func (c *Container) GetNextBlock() ([]byte, error) {
 	if err != nil {
 		return nil, err
 	}
+	if blockSize > uint64(c.Length()) {
+		return nil, errors.New("container: not enough data to return")
+	}
 	return c.Get(int(blockSize))
 }
 
